@@ -157,5 +157,6 @@ pub fn property() -> Property {
             direct: None,
         }],
         assumptions: &[],
+        enumerate: None,
     }
 }
